@@ -3,7 +3,7 @@
 (* every reachable cursor state (index x direction x in/out ranges) of every  *)
 (* small tree sequence under every option satisfies the C06/C01 invariants.   *)
 EXTENDS Universe
-CONSTANTS Thresholds
+CONSTANTS Thresholds, TrackedMode
 VARIABLES ts, o, st
 vars == <<ts, o, st>>
 TimeVecsQ == {<<0,0,1,2>>}
@@ -11,7 +11,9 @@ FlagVecsQ == {<<1,1,0,0>>, <<0,1,1,0>>}
 TimeVecsT == {<<0,0,1,2>>, <<0,1,1,2>>, <<0,0,1,1>>}
 FlagVecsT == {<<1,1,0,0>>, <<1,1,1,0>>, <<0,1,0,1>>}
 
-TrackedChoices(t) == LET S == SamplesOf(t) IN {{}, S} \cup (IF S = {} THEN {} ELSE {{Min(S)}})
+TrackedChoices(t) == LET S == SamplesOf(t) IN
+   IF TrackedMode = 1 THEN (IF S = {} THEN {{}} ELSE {{Min(S)}})
+   ELSE {{}, S} \cup (IF S = {} THEN {} ELSE {{Min(S)}})
 Init == /\ ts \in AllTs
         /\ o \in {[th |-> th, tracked |-> tr] : th \in Thresholds, tr \in TrackedChoices(ts)}
         /\ st = NullTree(ts, o)
